@@ -1,84 +1,155 @@
 (** C17 — Mechanisms are immutable once loaded; rule-level overrides stay local.
-    Property theorems only; proofs are in C17/Proofs.v.
+    Property theorems only; proofs are in C17/Proofs.v and C17/VProofs.v.
 
-    [generated_table] (Gen/Effects.v) is the receiver-write effect table that
-    harness/tools/effects extracts from the CURRENT source of /repo on every run;
-    [effects_read_only] (Gen/EffectsOk.v) is the kernel-checked fact that no method
-    of any mechanism type has a receiver-write effect.  A code change that makes an
-    Execute / WithConfig / accessor of a mechanism write receiver-reachable memory
-    makes [effects_read_only], hence this file, fail to compile.
+    Two tables are REGENERATED from the current source of /repo by harness/tools/effects on every run:
 
-    Model (C17/Model.v): a store of cells; a mechanism instance is a record of
-    cell references; WithConfig allocates fresh cells for overridden fields and
-    shares the rest; calls interleave access by access; a call writes only if the
-    table lists a write effect for the called method.  [has_row tbl p]: the
-    Go type of [p] is a mechanism type of the table. *)
-From HV Require Import Base.Prelude C17.Model C17.Proofs Gen.Effects Gen.EffectsOk.
+    [generated_table] (Gen/Effects.v): per mechanism type and method, the instructions that may write memory
+    reachable from the receiver.  [effects_read_only] (Gen/EffectsOk.v): there are none.
 
-(** executing mechanisms, calling accessors and creating variants — any number,
-    any interleaving — changes no cell that existed before: the prototype and
-    every earlier variant keep their configuration *)
+    [generated_variants] (Gen/Variants.v): per mechanism type, how [WithConfig] (and the constructors / Merge
+    helpers / closures it calls) builds every field of the instance it returns — the receiver's own field
+    shared or copied, fresh, fresh but computed from a receiver field, possibly sharing memory with a receiver
+    field, or not set at all —, which methods write the field, and what WithConfig writes in the receiver.
+    [variants_ok]: every row passes [variant_row_ok] (C17/VModel.v): the receiver is not written, and every
+    field is the receiver's SAME field which nobody writes, or fresh memory (computed, if at all, from fields
+    nobody writes).  [variants_aligned]: both tables list the same types in the same order.
+
+    A code change that makes a method write receiver memory, or makes WithConfig alias / overwrite / forget /
+    inherit-then-mutate a field, makes one of these Examples — hence this file — fail to compile.
+
+    Model (C17/Model.v, C17/VModel.v): a store of cells; a mechanism instance is a record of cell references,
+    one per field; calls interleave access by access; a call writes only if the effect table lists a write for
+    the called method, and only cells of fields whose row entry names the method; a finished WithConfig builds
+    the variant FROM THE ROW of its type ([build]: shares the receiver's cell, copies its current value, writes
+    it in place, allocates, or leaves zero — as the sources say), along any path the row allows.
+    [has_row etbl p]: the Go type of [p] is a mechanism type of the table; [vcatalogue_ok]: the prototypes'
+    cells exist, one per field of their row. *)
+From HV Require Import Base.Prelude C17.Model C17.Proofs C17.VModel C17.VProofs Gen.Effects Gen.EffectsOk Gen.Variants.
+
+(** executing mechanisms, calling accessors and creating variants — any number, any interleaving — changes no
+    cell that existed before: the prototype and every earlier variant keep their configuration *)
 Theorem C17_store_unchanged : forall s0 cat c1 c2,
-  catalogue_ok s0 cat -> (forall p, In p cat -> has_row generated_table p) ->
-  steps generated_table (init s0 cat) c1 -> steps generated_table c1 c2 ->
+  vcatalogue_ok generated_variants s0 cat -> (forall p, In p cat -> has_row generated_table p) ->
+  vsteps generated_table generated_variants (init s0 cat) c1 -> vsteps generated_table generated_variants c1 c2 ->
   (exists ext, c_store c2 = c_store c1 ++ ext) /\
   (forall i, In i (c_insts c1) -> In i (c_insts c2) /\ view (c_store c2) i = view (c_store c1) i).
-Proof. intros s0 cat c1 c2 Hc Hu. exact (store_unchanged generated_table effects_read_only s0 cat Hc Hu c1 c2). Qed.
+Proof.
+  intros s0 cat c1 c2 Hc Hu.
+  exact (v_store_unchanged generated_table generated_variants s0 cat effects_read_only variants_ok Hc Hu c1 c2).
+Qed.
 Print Assumptions C17_store_unchanged.
 
 (** no interleaving contains two concurrent conflicting accesses *)
 Theorem C17_race_free : forall s0 cat c,
-  catalogue_ok s0 cat -> (forall p, In p cat -> has_row generated_table p) ->
-  steps generated_table (init s0 cat) c -> ~ race c.
-Proof. intros s0 cat c Hc Hu. exact (race_free generated_table effects_read_only s0 cat Hc Hu c). Qed.
+  vcatalogue_ok generated_variants s0 cat -> (forall p, In p cat -> has_row generated_table p) ->
+  vsteps generated_table generated_variants (init s0 cat) c -> ~ race c.
+Proof.
+  intros s0 cat c Hc Hu.
+  exact (v_race_free generated_table generated_variants s0 cat effects_read_only variants_ok Hc Hu c).
+Qed.
 Print Assumptions C17_race_free.
 
 (** no running call ever has a write ahead of it *)
 Theorem C17_calls_read_only : forall s0 cat c t a,
-  catalogue_ok s0 cat -> (forall p, In p cat -> has_row generated_table p) ->
-  steps generated_table (init s0 cat) c -> In t (c_thr c) -> In a (t_todo t) -> acc_is_write a = false.
-Proof. intros s0 cat c t a Hc Hu. exact (calls_read_only generated_table effects_read_only s0 cat Hc Hu c t a). Qed.
+  vcatalogue_ok generated_variants s0 cat -> (forall p, In p cat -> has_row generated_table p) ->
+  vsteps generated_table generated_variants (init s0 cat) c -> In t (c_thr c) -> In a (t_todo t) -> acc_is_write a = false.
+Proof.
+  intros s0 cat c t a Hc Hu.
+  exact (v_calls_read_only generated_table generated_variants s0 cat effects_read_only variants_ok Hc Hu c t a).
+Qed.
 Print Assumptions C17_calls_read_only.
 
-(** each rule observes exactly the catalogue configuration of its prototype
-    overlaid with its own overrides *)
+(** each rule observes exactly the catalogue configuration of its prototype overlaid with its own overrides *)
 Theorem C17_overrides_local : forall s0 cat c i,
-  catalogue_ok s0 cat -> (forall p, In p cat -> has_row generated_table p) ->
-  steps generated_table (init s0 cat) c -> In i (c_insts c) ->
+  vcatalogue_ok generated_variants s0 cat -> (forall p, In p cat -> has_row generated_table p) ->
+  vsteps generated_table generated_variants (init s0 cat) c -> In i (c_insts c) ->
   spec_view s0 cat i = Some (view (c_store c) i).
-Proof. intros s0 cat c i Hc Hu. exact (overrides_local generated_table effects_read_only s0 cat Hc Hu c i). Qed.
+Proof.
+  intros s0 cat c i Hc Hu.
+  exact (v_overrides_local generated_table generated_variants s0 cat effects_read_only variants_ok Hc Hu c i).
+Qed.
 Print Assumptions C17_overrides_local.
 
 (** … regardless of which other rules exist or were loaded before *)
 Theorem C17_order_independent : forall s0 cat c c' i i',
-  catalogue_ok s0 cat -> (forall p, In p cat -> has_row generated_table p) ->
-  steps generated_table (init s0 cat) c -> steps generated_table (init s0 cat) c' ->
+  vcatalogue_ok generated_variants s0 cat -> (forall p, In p cat -> has_row generated_table p) ->
+  vsteps generated_table generated_variants (init s0 cat) c -> vsteps generated_table generated_variants (init s0 cat) c' ->
   In i (c_insts c) -> In i' (c_insts c') ->
   i_origin i = i_origin i' -> i_ovrs i = i_ovrs i' ->
   view (c_store c) i = view (c_store c') i'.
-Proof. intros s0 cat c c' i i' Hc Hu. exact (order_independent generated_table effects_read_only s0 cat Hc Hu c c' i i'). Qed.
+Proof.
+  intros s0 cat c c' i i' Hc Hu.
+  exact (v_order_independent generated_table generated_variants s0 cat effects_read_only variants_ok Hc Hu c c' i i').
+Qed.
 Print Assumptions C17_order_independent.
 
-(** the same statements hold for EVERY effect table that passes the boolean
-    check (the theorems do not depend on today's table) *)
-Theorem C17_for_every_table : forall tbl, forallb row_ok tbl = true ->
-  forall s0 cat, catalogue_ok s0 cat -> (forall p, In p cat -> has_row tbl p) ->
-  forall c, steps tbl (init s0 cat) c ->
+(** the same statements hold for EVERY pair of tables that pass the two boolean checks (the theorems do not
+    depend on today's tables; nothing about WithConfig is assumed beyond what [variant_row_ok] checks) *)
+Theorem C17_for_every_table : forall etbl vtbl,
+  forallb row_ok etbl = true -> forallb variant_row_ok vtbl = true ->
+  forall s0 cat, vcatalogue_ok vtbl s0 cat -> (forall p, In p cat -> has_row etbl p) ->
+  forall c, vsteps etbl vtbl (init s0 cat) c ->
     ~ race c /\
     (forall i, In i (c_insts c) -> spec_view s0 cat i = Some (view (c_store c) i)) /\
-    (forall c2, steps tbl c c2 -> exists ext, c_store c2 = c_store c ++ ext).
+    (forall c2, vsteps etbl vtbl c c2 ->
+       (exists ext, c_store c2 = c_store c ++ ext) /\
+       forall i, In i (c_insts c) -> In i (c_insts c2) /\ view (c_store c2) i = view (c_store c) i).
 Proof.
-  intros tbl Ht s0 cat Hc Hu c Hs. split; [|split].
-  - eapply race_free; eauto.
-  - intros i Hi. eapply overrides_local; eauto.
-  - intros c2 H2. eapply store_unchanged; eauto.
+  intros etbl vtbl He Hv s0 cat Hc Hu c Hs. split; [|split].
+  - eapply v_race_free; eauto.
+  - intros i Hi. eapply v_overrides_local; eauto.
+  - intros c2 H2. eapply v_store_unchanged; eauto.
 Qed.
 Print Assumptions C17_for_every_table.
 
-(** the sequential semantics that the correspondence evaluator executes ([run_ops]) is a
-    schedule of the interleaving semantics, and so meets the specification: after ANY list
-    of operations every instance shows its prototype's catalogue configuration overlaid with
-    its own overrides, and the store that existed before is only extended *)
+(** LOCALITY FROM THE VARIANT TABLE ALONE.  For every variant table that passes [variant_row_ok] and EVERY effect
+    table — methods may write the fields the variant table lists for them (a memo, a counter) —: in every
+    reachable configuration every field NOBODY writes, of every instance, holds exactly its prototype's
+    catalogue value overlaid with the instance's own overrides.  So overrides are local, independent of what
+    else was created or executed, and the prototype keeps these fields: a variant never aliases, and never
+    starts from, receiver state that a later operation writes. *)
+Theorem C17_locality_from_variant_table : forall etbl vtbl,
+  forallb variant_row_ok vtbl = true ->
+  forall s0 cat, vcatalogue_ok vtbl s0 cat -> cat_separate vtbl cat ->
+  forall c, vsteps etbl vtbl (init s0 cat) c ->
+  forall i k cl, In i (c_insts c) -> immutable_at vtbl i k -> nth_error (i_cells i) k = Some cl ->
+    spec_field s0 cat i k = Some (rd (c_store c) cl).
+Proof.
+  intros etbl vtbl Hv s0 cat Hc Hsep c Hs i k cl Hi Him Hk.
+  exact (immutable_fields_local etbl vtbl s0 cat Hv Hc Hsep c i k cl Hs Hi Him Hk).
+Qed.
+Print Assumptions C17_locality_from_variant_table.
+
+(** … and a running call only ever writes cells of its own instance's written fields: never the cell of a field
+    nobody writes, of any instance (prototype or variant) *)
+Theorem C17_writes_stay_local : forall etbl vtbl,
+  forallb variant_row_ok vtbl = true ->
+  forall s0 cat, vcatalogue_ok vtbl s0 cat -> cat_separate vtbl cat ->
+  forall c, vsteps etbl vtbl (init s0 cat) c ->
+  forall t cw v i k, In t (c_thr c) -> In (AWrite cw v) (t_todo t) ->
+    In i (c_insts c) -> immutable_at vtbl i k -> nth_error (i_cells i) k <> Some cw.
+Proof.
+  intros etbl vtbl Hv s0 cat Hc Hsep c Hs t cw v i k.
+  exact (writes_stay_local etbl vtbl s0 cat Hv Hc Hsep c t cw v i k Hs).
+Qed.
+Print Assumptions C17_writes_stay_local.
+
+(** the simple model the correspondence evaluator executes ([make_variant]: fresh cells for overridden fields,
+    the rest shared) and the table-driven one show the same view of a new variant, for every row under the
+    check and every path through it *)
+Theorem C17_variant_views_agree : forall vr src picks ovr (s s' : store) (cs : list cell),
+  variant_row_ok vr = true -> picks_from (v_fields vr) picks ->
+  length (i_cells src) = length (v_fields vr) ->
+  (forall c, In c (i_cells src) -> c < length s) ->
+  build (i_cells src) s picks ovr = Some (s', cs) ->
+  map (rd s') cs = view (fst (make_variant s src ovr)) (snd (make_variant s src ovr)).
+Proof. exact variant_views_agree. Qed.
+Print Assumptions C17_variant_views_agree.
+
+(** the sequential semantics that the correspondence evaluator executes ([run_ops], with [make_variant]) is a
+    schedule of the interleaving semantics of C17/Model.v and meets the specification: after ANY list of
+    operations every instance shows its prototype's catalogue configuration overlaid with its own overrides,
+    and the store that existed before is only extended *)
 Theorem C17_sequential_runs_meet_spec : forall s0 cat os s insts,
   catalogue_ok s0 cat -> (forall p, In p cat -> has_row generated_table p) ->
   run_ops generated_table (s0, cat) os = Some (s, insts) ->
@@ -100,22 +171,52 @@ Theorem C17_F1_pinned_refuted :
 Proof. exact F1_pinned_refuted. Qed.
 Print Assumptions C17_F1_pinned_refuted.
 
-(** the hypotheses are satisfiable: a read-only row, a catalogue, a run in which a
-    variant is created while the prototype executes *)
+(** what the variant check rejects, on two seeded changes (rows as extracted from the changed trees; no statement
+    about today's tree).  corpus/C17/mutations/M2 — WithConfig re-uses the prototype's [scopes] backing array:
+    [variant_row_ok] fails and in the model creating a variant with other scopes CHANGES THE PROTOTYPE. *)
+Theorem C17_variant_check_refutes_M2 :
+  variant_row_ok m2_vrow = false /\ vcatalogue_ok [m2_vrow] [1%Z; 10%Z] [two_proto] /\
+  exists c, vsteps [m2_erow] [m2_vrow] (init [1%Z; 10%Z] [two_proto]) c /\
+            view (c_store c) two_proto = [1%Z; 99%Z] /\ view [1%Z; 10%Z] two_proto = [1%Z; 10%Z].
+Proof. exact M2_refuted. Qed.
+Print Assumptions C17_variant_check_refutes_M2.
+
+(** seeded/C17-9 — a cache-key memo (atomic.Value, filled by Execute) is copied by [cfg := f.cfg]:
+    [variant_row_ok] fails on field cfg.cacheKey and in the model a variant with its own scopes, created after
+    the prototype executed once, shows the prototype's memo instead of catalogue + own overrides *)
+Theorem C17_variant_check_refutes_seeded_9 :
+  variant_row_ok s9_vrow = false /\ vcatalogue_ok [s9_vrow] [5%Z; 0%Z] [two_proto] /\
+  exists c v, vsteps [s9_erow] [s9_vrow] (init [5%Z; 0%Z] [two_proto]) c /\ In v (c_insts c) /\
+              i_origin v = 0 /\ i_ovrs v = [[Some 6%Z; None]] /\
+              view (c_store c) v = [6%Z; 7%Z] /\ spec_view [5%Z; 0%Z] [two_proto] v = Some [6%Z; 0%Z].
+Proof. exact S9_refuted. Qed.
+Print Assumptions C17_variant_check_refutes_seeded_9.
+
+(** the hypotheses are satisfiable: rows under both checks, a catalogue, a run in which a variant is built from
+    its row while the prototype executes; and a variant table WITH a written field that passes the check *)
 Theorem C17_nonvacuous :
-  forallb row_ok [nv_row] = true /\ catalogue_ok [10%Z; 20%Z] [nv_proto] /\
-  has_row [nv_row] nv_proto /\
-  exists c v, steps [nv_row] (init [10%Z; 20%Z] [nv_proto]) c /\ In v (c_insts c) /\
-    i_ovrs v = [[None; Some 99%Z]] /\ view (c_store c) v = [10%Z; 99%Z] /\
-    view (c_store c) nv_proto = [10%Z; 20%Z] /\ c_thr c <> [].
-Proof. exact nonvacuous. Qed.
+  (forallb row_ok [nv_row] = true /\ forallb variant_row_ok [vnv_vrow] = true /\ tables_aligned [nv_row] [vnv_vrow] = true /\
+   vcatalogue_ok [vnv_vrow] [10%Z; 20%Z] [two_proto] /\ has_row [nv_row] two_proto /\
+   exists c v, vsteps [nv_row] [vnv_vrow] (init [10%Z; 20%Z] [two_proto]) c /\ In v (c_insts c) /\
+     i_ovrs v = [[None; Some 99%Z]] /\ view (c_store c) v = [10%Z; 99%Z] /\
+     view (c_store c) two_proto = [10%Z; 20%Z] /\ c_thr c <> []) /\
+  (forallb variant_row_ok [loc_vrow] = true /\ vcatalogue_ok [loc_vrow] [5%Z; 0%Z] [two_proto] /\
+   cat_separate [loc_vrow] [two_proto] /\
+   immutable_at [loc_vrow] two_proto 0 /\ writable_at [loc_vrow] two_proto 1).
+Proof. split; [exact v_nonvacuous|exact locality_nonvacuous]. Qed.
 Print Assumptions C17_nonvacuous.
 
-(** today's table is not empty-handed: it has rows for at least ten mechanism types and every row
-    has an Execute and a WithConfig method (so [has_row] / [callable] are satisfiable for them) *)
+(** today's tables are not empty-handed: rows for at least ten mechanism types, each with an Execute and a
+    WithConfig method; the variant table speaks about the same types in the same order, and at least ten of its
+    rows describe an instance that WithConfig really constructs (some field has a source) *)
 Theorem C17_table_covers_mechanisms :
   List.length generated_table >= 10 /\
   forallb (fun r => match may_write r "Execute", may_write r "WithConfig" with
-                    | Some _, Some _ => true | _, _ => false end) generated_table = true.
-Proof. exact table_covers_mechanisms. Qed.
+                    | Some _, Some _ => true | _, _ => false end) generated_table = true /\
+  tables_aligned generated_table generated_variants = true /\
+  List.length (filter (fun vr => existsb (fun f => negb (is_nil (vf_srcs f))) (v_fields vr)) generated_variants) >= 10.
+Proof.
+  destruct table_covers_mechanisms as [A B]. split; [exact A|]. split; [exact B|]. split; [exact variants_aligned|].
+  exact variants_cover.
+Qed.
 Print Assumptions C17_table_covers_mechanisms.
